@@ -19,12 +19,18 @@ from common import hx
 # property whose statements rest on Model_minerals builds these files as obligations, so that an
 # edit of the glue source breaks a proof (or the translator fails closed), not only a differential run.
 GLUE_TIE_FILES = ["gen/Gen_minerals.v", "Inst_core.v", "Inst_minerals.v", "Inst_minerals_rhs1.v",
-                  "Inst_minerals_rhs2.v", "Inst_minerals_rhs3.v"]
+                  "Inst_minerals_rhs2.v", "Inst_minerals_rhs3.v",
+                  # round 5: the driver around the integrator (LSODA's constructor arguments, solver loop and its
+                  # failure branch, get_regime, update_all, __post_init__) and the theorems about its model
+                  "Inst_minerals_drv.v", "Inst_minerals_rhs_gr.v", "Proofs_driver.v"]
 GLUE_TIE_GEN = ("core", "minerals")
 GLUE_TIE_TRUSTED = (
     "glue tie T: translator/specs_minerals.py (GlueProxy/GArr array semantics: clip, boolean-mask stores, "
     "non-raising array division, 3x3 matmul; LSODA stand-ins that capture eval_rhs / replay one step; "
-    "oracle stubs for eigvalsh and polar_decompose; apply_gbs traced on copies with write-back at the call site)")
+    "oracle stubs for eigvalsh and polar_decompose; apply_gbs traced on copies with write-back at the call site; "
+    "round 5: LSODA stand-ins that record the constructor call / take m steps with independent symbolic state vectors / "
+    "fail at a chosen step, a Rotation.random stand-in (oracle) for __post_init__, the real update_all on stand-in solvers; "
+    "translator/srcguard.py: fail closed on unlisted callee kernels and on new integer literals > 3 in traced functions)")
 
 
 class Trace:
@@ -35,6 +41,8 @@ class Trace:
         self.rhs_tail = []       # last evaluations of the update
         self.step_ys = []        # solver.y after each step (copy, before the GBS write-back)
         self.y_start = None
+        self.ctor = None
+        self.start = None
         self.error = None
         self.F_returned = None
 
@@ -57,6 +65,7 @@ class Recorder:
                 tr = rec.current
                 if tr is not None:
                     tr.y_start = np.array(y0, dtype=float).copy()
+                    tr.ctor = dict(t0=t0, t_bound=t_bound, kw=dict(kw))     # what LSODA was constructed with
 
                 def fun2(t, y):
                     out = fun(t, y)
@@ -92,6 +101,12 @@ class Recorder:
         """Run one update under recording. Returns (trace, F_new or None)."""
         tr = Trace()
         self.current = tr
+        try:        # what the update starts from (for validate_problems)
+            tr.start = dict(F=np.array(F, dtype=float).copy(), o=np.array(mineral.orientations[-1], dtype=float).copy(),
+                            f=np.array(mineral.fractions[-1], dtype=float).copy(),
+                            t0=float(pathline[0]), t1=float(pathline[1]), user_kw=sorted(k for k in kw if k != "get_regime"))
+        except Exception:  # noqa: BLE001  (malformed arguments of a negative test)
+            tr.start = None
         try:
             Fn = mineral.update_orientations(params, F, get_L, pathline, **kw)
             tr.F_returned = np.array(Fn, dtype=float).copy()
@@ -412,4 +427,116 @@ def snapshot_valid(O, f, n):
         fails.append(f"fractions sum to {f.sum()!r}")
     if np.abs(O).max() > 1:
         fails.append("orientation entry outside [-1, 1]")
+    return fails
+
+
+# --------------------------------------------------------------------------
+# tie H for the problem instance handed to LSODA (round 5): the extracted Model_minerals.lsoda_problem_of must
+# reproduce, bit for bit, the constructor call of every recorded update -- start vector, absolute tolerance
+# vector, relative tolerance, first step, t0, t_bound; no further keyword.  (The generated k_lsoda_args_n{1,2,3}
+# are tied to the same model by Inst_minerals_drv.lsoda_args_inst_*; this run covers every grain count.)
+# --------------------------------------------------------------------------
+def validate_problems(chk, hist, bad, user_kw=()):
+    sc = hist["sc"]
+    lines, meta = [], []
+    for u in hist["updates"]:
+        tr = u["trace"]
+        st = getattr(tr, "start", None)
+        if tr.ctor is None or st is None or st["user_kw"]:
+            continue            # LSODA never constructed / caller supplied its own solver options
+        n = int(st["f"].shape[0])
+        if st["o"].shape != (n, 3, 3) or st["F"].shape != (3, 3):
+            continue
+        fl = list(st["F"].reshape(-1)) + list(st["o"].reshape(-1)) + list(st["f"]) + [st["t0"], st["t1"]]
+        lines.append(common.model_line("problem", [n], fl))
+        meta.append((u, tr))
+    if not lines:
+        return
+    res = common.run_model(lines, "core")
+    for (u, tr), r in zip(meta, res):
+        kw = tr.ctor["kw"]
+        chk.cov["lsoda_problems_compared"] = chk.cov.get("lsoda_problems_compared", 0) + 1
+        extra = sorted(set(kw) - {"atol", "rtol", "first_step", "lband", "uband"} - set(user_kw))
+        if extra:
+            bad.append((sc, f"update {u.get('index')}: LSODA constructed with unmodelled keyword(s) {extra}"))
+        if r[0] != "OK":
+            bad.append((sc, f"update {u.get('index')}: problem model returned {r}"))
+            continue
+        try:
+            impl = [float(tr.ctor["t0"])] + list(np.asarray(tr.y_start, dtype=float)) + [float(tr.ctor["t_bound"])] \
+                + list(np.broadcast_to(np.asarray(kw["atol"], dtype=float), tr.y_start.shape)) \
+                + [float(kw["rtol"]), float(kw["first_step"])]
+        except Exception as e:  # noqa: BLE001
+            bad.append((sc, f"update {u.get('index')}: LSODA constructor arguments not of the modelled form: {e}"))
+            continue
+        n = int(tr.start["f"].shape[0])
+        if kw.get("lband") is not None or kw.get("uband") is not None:
+            if n <= 4632:
+                bad.append((sc, f"update {u.get('index')}: banded Jacobian requested for {n} grains"))
+        if impl != r[1]:
+            okc, idx = common.vec_close(impl, r[1], rtol=0.0, atol=0.0)
+            if okc:             # NaN entries compare unequal as Python floats but are the same value
+                continue
+            names = "t0 / y0 / t_bound / atol / rtol / first_step"
+            bad.append((sc, f"update {u.get('index')}: LSODA's constructor arguments ({names}) differ from the model at flat index "
+                            f"{idx}: {impl[idx] if idx is not None and idx >= 0 else len(impl)!r} vs "
+                            f"{r[1][idx] if idx is not None and idx >= 0 else len(r[1])!r}"))
+
+
+# --------------------------------------------------------------------------
+# the failure branch of the solver loop on the REAL code (round 5; the tie T for it is
+# Inst_minerals_drv.update_loop_inst_*): scipy's LSODA is wrapped so that its step number `fail_step` reports
+# failure (status "failed", a message) instead of integrating.  Required (C07 / C01): IterationError is raised,
+# the stored history is byte-identical to the one before the call, the caller's F is untouched, and the mineral
+# is as usable afterwards as a fresh one (the next, unforced update is bit-identical to a twin's).
+# --------------------------------------------------------------------------
+def failing_solver_probe(sc, fail_step):
+    import pydrex.minerals as pm
+    import pydrex.exceptions as perr
+    fails = []
+    m, params, get_L, get_x, _ = build(sc)
+    twin, params2, get_L2, get_x2, _ = build(sc)
+    F0 = np.eye(3) + 0.1 * np.arange(9.0).reshape(3, 3) / 9
+    F_keep = F0.copy()
+    before = [(o.tobytes(), f.tobytes()) for o, f in zip(m.orientations, m.fractions)]
+
+    class FailingLSODA(_LSODA):
+        nsteps = 0
+
+        def step(self):
+            self.nsteps += 1
+            if self.nsteps == fail_step:
+                self.status = "failed"
+                return "forced failure of solver step %d (harness stand-in)" % fail_step
+            return super().step()
+
+    orig = pm.LSODA
+    pm.LSODA = FailingLSODA
+    raised = None
+    try:
+        try:
+            m.update_orientations(params, F0, get_L, (0.0, 0.25, get_x))
+        except Exception as e:  # noqa: BLE001
+            raised = e
+    finally:
+        pm.LSODA = orig
+    if raised is None:
+        fails.append(f"a solver step that reports failure (step {fail_step}) did not make update_orientations raise")
+    elif not isinstance(raised, perr.IterationError):
+        fails.append(f"a failing solver step raised {type(raised).__name__} instead of IterationError")
+    after = [(o.tobytes(), f.tobytes()) for o, f in zip(m.orientations, m.fractions)]
+    if after != before:
+        fails.append(f"a failed update (solver step {fail_step}) altered the stored history "
+                     f"({len(before)} -> {len(after)} snapshots)")
+    if not np.array_equal(F0, F_keep):
+        fails.append("a failed update wrote into the caller's deformation gradient")
+    if after == before:
+        try:
+            Fa = m.update_orientations(params, F0, get_L, (0.0, 0.25, get_x))
+            Fb = twin.update_orientations(params2, F_keep.copy(), get_L2, (0.0, 0.25, get_x2))
+            if not (np.array_equal(Fa, Fb) and np.array_equal(m.orientations[-1], twin.orientations[-1])
+                    and np.array_equal(m.fractions[-1], twin.fractions[-1])):
+                fails.append("after a failed update the mineral does not behave like a fresh one")
+        except Exception as e:  # noqa: BLE001
+            fails.append(f"update after a failed update raised {type(e).__name__}: {e}")
     return fails
